@@ -437,6 +437,9 @@ class SamplerCore:
         """Get distribution function (map or pool.map)."""
         if self.config.pool is None:
             return map
+        elif isinstance(self.config.pool, int) and self.config.pool <= 1:
+            # A pool of one (or fewer) workers is serial evaluation
+            return map
         elif isinstance(self.config.pool, int) and self.config.pool > 1:
             from multiprocess import Pool
 
